@@ -387,7 +387,60 @@ def case_assign_sample_nums(rep):
                 rep.fail("sample number of position i does not depend on the list length", {"seed": seed, "n": n})
             if len({x.sample_num for x in c}) != len(c):
                 rep.fail("sample numbers are distinct", {"seed": seed, "n": n})
+            # cards that already carry a number (a rehearsal with another seed, phantoms appended later): the official numbering is
+            # still a function of the seed and the position only
+            e = [CVR(id=str(i), votes={}) for i in range(n)]
+            CVR.assign_sample_nums(e, SHA256(seed + 1000))
+            for x in e[::2]:
+                x.sample_num = None
+            CVR.assign_sample_nums(e, SHA256(seed))
+            if [x.sample_num for x in e] != [x.sample_num for x in a]:
+                rep.fail("sample numbers depend on the seed and the position only (earlier numbers are overwritten)", {"seed": seed, "n": n},
+                         got=[x.sample_num for x in e][:3], expected=[x.sample_num for x in a][:3])
     rep.sample({"seed": 0, "n": 3})
+
+
+def case_prep_samples(rep):
+    """C10 / C17: prep_comparison_sample / prep_polling_sample put the CALLER's lists into selection order (in place), pairing
+    every manual record with its CVR; this is what makes a later round's data the earlier data with observations appended"""
+    from shangrla.core.Audit import CVR
+    nmax = 5 if thorough(rep) else 4
+    rep.bound = f"1..{nmax} sampled cards, every selection order, every initial order of the two lists (sampled above 3 cards)"
+    for n in range(1, nmax + 1):
+        ids = [f"card{i}" for i in range(n)]
+        orders = list(itertools.permutations(range(n)))
+        for sel in orders:
+            so = {ids[i]: {"selection_order": sel[i], "serial": i + 1} for i in range(n)}
+            want = [ids[i] for i in sorted(range(n), key=lambda i: sel[i])]
+            inits = orders if n <= 3 else [rep.rng.choice(orders) for _ in range(4)]
+            if n > 3:
+                rep.exhaustive = False
+            for om in inits:
+                for oc in (inits if n <= 3 else [rep.rng.choice(orders) for _ in range(2)]):
+                    mv = [CVR(id=ids[i], votes={"c": {"m": i}}) for i in om]
+                    cv = [CVR(id=ids[i], votes={"c": {"v": i}}) for i in oc]
+                    mv0, cv0 = mv, cv
+                    inp = {"selection_order": list(sel), "mvr_order": list(om), "cvr_order": list(oc)}
+                    rep.case(("cmp", sel, om, oc))
+                    try:
+                        CVR.prep_comparison_sample(mv, cv, so)
+                    except Exception as ex:
+                        rep.fail("prep_comparison_sample does not raise", inp, got=type(ex).__name__ + ": " + str(ex)[:80])
+                        continue
+                    if [x.id for x in mv0] != want or [x.id for x in cv0] != want:
+                        rep.fail("prep_comparison_sample leaves BOTH of the caller's lists in selection order, paired by identifier", inp,
+                                 got={"mvr": [x.id for x in mv0], "cvr": [x.id for x in cv0]}, expected=want)
+                mv = [CVR(id=ids[i], votes={}) for i in om]
+                rep.case(("poll", sel, om))
+                try:
+                    CVR.prep_polling_sample(mv, so)
+                except Exception as ex:
+                    rep.fail("prep_polling_sample does not raise", {"selection_order": list(sel), "mvr_order": list(om)}, got=type(ex).__name__)
+                    continue
+                if [x.id for x in mv] != want:
+                    rep.fail("prep_polling_sample leaves the caller's list in selection order", {"selection_order": list(sel), "mvr_order": list(om)},
+                             got=[x.id for x in mv], expected=want)
+    rep.sample({"selection_order": [2, 0, 1], "mvr_order": [0, 1, 2], "cvr_order": [2, 1, 0]})
 
 
 # =========================================================================================== C08: phantoms
